@@ -22,7 +22,13 @@ RULE = (
     "dofs) with a dominant paired entry, so the secondary block is an invertible permuted block-diagonal matrix by "
     "construction; all other couplings are random with row sums 0 / 0.3 / 0.8 / 2.5. Primary equations are passed as "
     "names / operators / dict name-or-operator -> primary grids (grid-restricted equations, whose excluded rows go to "
-    "the secondary block), primary variables as atomic variables / names / md-variables, in random order. On a FRESH "
+    "the secondary block), primary variables as atomic variables / names / md-variables, in random order. Scaling class "
+    "(2/3 of the cases): the rows of every (equation, grid) block are multiplied by 10^e and / or the unknowns of every "
+    "(variable, grid) block are v = u / 10^e (equations written in u, stored state divided by the factor), e in "
+    "-3..3, -8..8 or -15..15 per block, so the system porepy sees is diag(r) A diag(c) with entries over up to 60 "
+    "orders of magnitude while the reference stays the well-scaled A, b in u; with |e| > 3 only the default inverter "
+    "is used; increments are compared after undoing the scaling (c * x vs du), the reduced system is solved after "
+    "undoing it. On a FRESH "
     "EquationSystem, assemble_schur_complement_system + numpy solve + expand_schur_complement_solution is run twice "
     "(each time with the default inverter or a dense-inverse inverter; the second default call re-uses the cached "
     "permutation for the same split) and compared with numpy.linalg.solve of the full forward-mode-mirror system; every "
@@ -43,7 +49,8 @@ LEVEL_TEXT = ("Exploration: thousands of generated equation systems per run with
               "inverter; reduced-and-expanded solution compared with the direct solution of the full system.")
 LEVEL_NOTE = ("Equation k is paired with variable k on the same grids (square blocks by construction); systems have "
               "< 170 unknowns; cell dofs only. Ill-conditioned systems (cond > 1e6) are discarded, their fraction is "
-              "reported and capped. Finds violations, does not prove absence.")
+              "reported and capped. Scaling is diagonal with powers of ten per (equation, grid) / (variable, grid) block; "
+              "conditioning and tolerance refer to the unscaled system. Finds violations, does not prove absence.")
 DESIGN_REF = "DESIGN.md section 4, C07"
 ASSUMPTIONS = [
     "fresh EquationSystem per case: the default inverter caches its permutation (documented), so one system is only "
@@ -54,7 +61,8 @@ ASSUMPTIONS = [
 REQUIRED = {"solved": 0.85, "inv-default": 0.5, "inv-dense": 0.3, "default-cached-reuse": 0.15, "restricted-primary-equation": 0.25,
             "peq-dict": 0.3, "peq-list": 0.08, "pvar-atomic": 0.4, "pvar-names-or-md": 0.08, "blocks>=2-of-size>=2": 0.25,
             "secondary-permuted": 0.4, "excluded-rows-and-secondary-equations": 0.05, "expand-twice": 0.8,
-            "expand-twice-same": 0.3, "expand-other-vector": 0.5}
+            "expand-twice-same": 0.3, "expand-other-vector": 0.5, "scaled-rows": 0.2, "scaled-cols": 0.2,
+            "scaled-extreme": 0.1, "secondary-block-entries-beyond-1e12": 0.05}
 
 
 def strategy(tier):
@@ -83,6 +91,7 @@ def check(spec):
     if not Y.finite:
         return {"labels": ["discarded-nonfinite"], "nontrivial": False}
     A, b, n = Y.A, Y.b, Y.n
+    rs, cs = Y.rs, Y.cs
     pr, sr, pd, sd = Y.prim_rows, Y.sec_rows, Y.prim_dofs, Y.sec_dofs
     if pr.size != pd.size or sr.size != sd.size or pr.size == 0 or sr.size == 0:
         from ..core import HarnessError
@@ -132,6 +141,15 @@ def check(spec):
         labels.add("explicit-state")
     if spec["amp"] > 0:
         labels.add("nonlinear")
+    if Y.scaled_rows:
+        labels.add("scaled-rows")
+    if Y.scaled_cols:
+        labels.add("scaled-cols")
+    emax = max(abs(e) for row in (spec.get("rscale") or [[0]]) + (spec.get("cscale") or [[0]]) for e in row)
+    if emax >= 12:
+        labels.add("scaled-extreme")
+    if np.max(np.abs(np.log10(rs[sr][:, None] * cs[sd][None, :]))[A_ss != 0]) >= 12:
+        labels.add("secondary-block-entries-beyond-1e12")
     nontrivial = (len(big) >= 2 and permuted) or Y.restricted
 
     # ---------------------------------------------------------------- the property
@@ -155,31 +173,34 @@ def check(spec):
         require(Sd.shape == (pd.size, pd.size) and rhs.shape == (pd.size,), "schur-shape",
                 f"reduced system {Sd.shape}, rhs {rhs.shape}; expected {pd.size} primary unknowns")
         require(np.all(np.isfinite(Sd)) and np.all(np.isfinite(rhs)), "schur-nonfinite", f"inverter={which}")
+        # the reduced system is solved after undoing the row / column scaling (a diagonal change of variables,
+        # exact up to rounding of the factors): y = cs_p * x_p lives in the well-scaled variables
         try:
-            x_p = np.linalg.solve(Sd, rhs)
+            y = np.linalg.solve(Sd / rs[pr][:, None] / cs[pd][None, :], rhs / rs[pr])
         except np.linalg.LinAlgError as e:
             raise Violation("schur-singular", f"reduced system singular (inverter={which}); reference cond(S)={c_S:.2e}") from e
         S_copy, rhs_copy = Sd.copy(), rhs.copy()
+        x_p = y / cs[pd]
         x = np.asarray(es.expand_schur_complement_solution(x_p.copy()), dtype=float).ravel()
         require(x.shape == (n,), "expanded-shape", f"{x.shape} vs {(n,)}")
-        require_close(x, x_full, "solution-" + which, rtol=tol, atol=1e-12,
+        require_close(cs * x, x_full, "solution-" + which, rtol=tol, atol=1e-12,
                       what=f"expanded Schur solution (inverter={which}) vs direct solve of the full system")
         # every further expansion of the same assembled system must be exact as well
         for j, re_ in enumerate(spec["reexpand"]):
             if re_["kind"] == "same":
-                y_p, ref = x_p.copy(), x_full
+                y_p, ref = y.copy(), x_full
                 labels.add("expand-twice-same")
             else:
                 g = np.random.default_rng(re_["seed"] * 7919 + j)
-                y_p = re_["scale"] * x_p + g.uniform(-1.0, 1.0, x_p.size) * (1.0 + np.max(np.abs(x_p)))
+                y_p = re_["scale"] * y + g.uniform(-1.0, 1.0, y.size) * (1.0 + np.max(np.abs(y)))
                 ref = np.zeros(n)
                 ref[pd] = y_p
                 ref[sd] = np.linalg.solve(A_ss, b[sr] - A[np.ix_(sr, pd)] @ y_p)
                 labels.add("expand-other-vector")
             labels.add("expand-twice")
-            xx = np.asarray(es.expand_schur_complement_solution(y_p.copy()), dtype=float).ravel()
+            xx = np.asarray(es.expand_schur_complement_solution(y_p / cs[pd]), dtype=float).ravel()
             require(xx.shape == (n,), "expanded-shape", f"{xx.shape} vs {(n,)}")
-            require_close(xx, ref, f"re-expansion-{re_['kind']}-" + which, rtol=max(tol, 1e-13 * c_ss), atol=1e-12,
+            require_close(cs * xx, ref, f"re-expansion-{re_['kind']}-" + which, rtol=max(tol, 1e-13 * c_ss), atol=1e-12,
                           what=f"expansion #{j + 2} of the same assembled Schur system ({re_['kind']} reduced vector, "
                                f"inverter={which}) vs [x_p, A_ss^-1 (b_s - A_sp x_p)] of the mirror system")
         S_now = S.toarray() if hasattr(S, "toarray") else np.asarray(S)
